@@ -124,6 +124,7 @@ from ..number import (
     MPBFloatContext,
     MPFixedContext,
     MPSFloatContext,
+    OverflowMode,
     RealFloat,
     RoundingMode,
 )
@@ -249,6 +250,12 @@ class _Prober:
     def describe(self) -> _Source | Declined:
         """`ctx` as a lowerable bounded format, or why it is not one."""
         ctx = self.ctx
+        if isinstance(ctx, MPBFixedContext) and ctx.overflow is OverflowMode.WRAP:
+            # two probes cannot establish a constant: they may land on the same
+            # value by coincidence of the magnitudes chosen
+            return Declined(
+                'wrapping overflow gives a different answer at every magnitude'
+            )
         try:
             maxval = ctx.maxval().as_real()
             neg_maxval = ctx.maxval(s=True).as_real()
